@@ -938,3 +938,37 @@ def consumed_only_by(b, local, cid_suffix):
     cons = consumers(b, local)
     calls = [c for c in cons if c["kind"] == "call"]
     return len(cons) == 1 and len(calls) == 1 and calls[0]["cid"].endswith(cid_suffix), (calls[0] if calls else None)
+
+
+def rule_name_conversion(F, ev, R, config, rule="R-NAME-CONVERSION"):
+    """a caller-supplied parameter name is a `str` seen through `AsRef<str>`, in every builder method alike: wherever the model
+    builder or the function builder turns a name into the stored `String`, the conversion is applied to `str` / `String`,
+    never directly to the caller's own name type (whose `Display` / `Into<String>` may differ from its `AsRef<str>`: the
+    model's names and the function's names would then be compared under different spellings)"""
+    OKSELF = ("str", "&str", "std::string::String", "&std::string::String", "&&str")
+    n = 0
+    for b in sorted(F.bodies.values(), key=lambda x: x.key):
+        root = F.bodies.get(b.j.get("root", b.key), b)
+        im = root.j.get("impl", {})
+        if im.get("self_adt") not in (ADT_MBUILDER, ADT_FNBUILDER) or im.get("trait"):
+            continue
+        for bi, t in b.calls():
+            if "fn" not in t:
+                continue
+            f = t["fn"]
+            nm = f["name"]
+            if nm not in ("to_string", "to_owned", "into", "from", "format", "to_str"):
+                continue
+            dty = b.local_ty(t["dest"]["l"]) or ""
+            if dty != "std::string::String":
+                continue
+            g = f.get("gargs") or []
+            selfty = g[0] if g else ""
+            if nm == "from" and len(g) > 1:
+                selfty = g[1]
+            n += 1
+            ok = selfty in OKSELF
+            R.add(rule, config, b.key, "name→String from str", ok,
+                  "" if ok else "`%s` is applied to the caller's name type `%s` directly (not to its `AsRef<str>` view): names may be spelled differently "
+                  "from the ones other builder methods see" % (f["path"], selfty[:60]), t.get("span"))
+    R.floor(rule, config, 2, "name conversions in SeparableModelBuilder::new and ModelBasisFunctionBuilder::new")
